@@ -155,6 +155,7 @@ impl<'a, W: World> Explorer<'a, W> {
 
     pub fn run(&mut self, init: W) -> Stats {
         let clock = crate::util::Clock::start();
+        let rss_base = crate::util::rss_mb();
         let mut stats = Stats::default();
         let mut seen: HashMap<u128, u32> = HashMap::new();
         let mut nodes: Vec<Node<W::Act>> = vec![];
@@ -177,8 +178,16 @@ impl<'a, W: World> Explorer<'a, W> {
                 stats.cap_hit = Some(format!("max_depth={} (frontier {} states unexpanded)", self.limits.max_depth, frontier.len()));
                 break;
             }
-            // expand this level in parallel
-            let fr = &frontier;
+            // expand this level in parallel, a slice of the frontier at a time (all successors of a wide level
+            // at once would be many times the size of the level itself); slices are taken and merged in
+            // frontier order, so the search order and the result are those of the unsliced level
+            let mut next: Vec<(u32, W)> = vec![];
+            const SLICE: usize = 32_768;
+            let mut lo = 0usize;
+            while lo < frontier.len() {
+            let hi = (lo + SLICE).min(frontier.len());
+            let fr = &frontier[lo..hi];
+            lo = hi;
             let cands: Vec<Vec<Cand<W>>> = crate::util::par_map(fr.len(), |i| {
                 let (id, w) = &fr[i];
                 let mut out = vec![];
@@ -216,7 +225,6 @@ impl<'a, W: World> Explorer<'a, W> {
                 out
             });
             // merge sequentially (deterministic order)
-            let mut next: Vec<(u32, W)> = vec![];
             for c in cands.into_iter().flatten() {
                 if c.is_probe {
                     stats.probes += 1;
@@ -314,8 +322,18 @@ impl<'a, W: World> Explorer<'a, W> {
                             stats.cap_hit = Some(format!("max_states={}", self.limits.max_states));
                             break 'outer;
                         }
+                        // memory is also looked at inside a level (a single wide level can add many GB)
+                        if stats.states % 16_384 == 0 && crate::util::rss_mb() > rss_base + self.limits.rss_mb {
+                            stats.cap_hit = Some(format!("rss>{}MB at depth {}", self.limits.rss_mb, depth));
+                            break 'outer;
+                        }
                     }
                 }
+            }
+            if clock.secs() > self.limits.wall_s * 1.5 && lo < frontier.len() {
+                stats.cap_hit = Some(format!("wall={}s inside depth {}", self.limits.wall_s, depth));
+                break 'outer;
+            }
             }
             depth += 1;
             if !next.is_empty() {
@@ -329,7 +347,7 @@ impl<'a, W: World> Explorer<'a, W> {
                 }
                 break;
             }
-            if crate::util::rss_mb() > self.limits.rss_mb {
+            if crate::util::rss_mb() > rss_base + self.limits.rss_mb {
                 if !frontier.is_empty() {
                     stats.cap_hit = Some(format!("rss>{}MB at depth {}", self.limits.rss_mb, depth));
                 }
@@ -337,6 +355,12 @@ impl<'a, W: World> Explorer<'a, W> {
             }
         }
         stats.closed = stats.cap_hit.is_none();
+        // give the memory of this configuration back before the next one starts (the cap above is relative
+        // to the resident size at the start of the configuration, so one large configuration cannot starve
+        // those that follow it)
+        drop(frontier);
+        drop(seen);
+        crate::util::trim_heap();
         // deepest history as a sample
         if let Some(last) = nodes.len().checked_sub(1) {
             stats.deepest = Self::history(&nodes, last as u32).iter().map(|a| W::label(a)).collect();
